@@ -90,6 +90,10 @@ def build_font(mspec, module, order_key=None):
         font.features.text = mspec["features"]
     for path, text in mspec.get("data", {}).items():
         font.data[path] = text.encode("utf-8") if isinstance(text, str) else bytes(text)
+    if "public.glyphOrder" not in mspec.get("lib", {}) and "public.glyphOrder" in font.lib:
+        # defcon maintains public.glyphOrder automatically while glyphs are added;
+        # that would make the defcon world *content* differ from the ufoLib2 one
+        del font.lib["public.glyphOrder"]
     return font
 
 
